@@ -16,7 +16,7 @@
    OnCancel was observed exactly once per watcher write (if the hook is configured). *)
 From Coq Require Import List NArith ZArith Bool Arith Lia.
 From RecordUpdate Require Import RecordUpdate.
-From JV Require Import Bytes Msg CliModel CliLemmas CliInv CliRet CliProofs CliCtx CliOps.
+From JV Require Import Bytes Msg CliModel CliLemmas CliInv CliRet CliProofs CliC05 CliCtx CliOps.
 Import ListNotations.
 
 (** * the delivery log *)
@@ -930,4 +930,112 @@ Proof.
       rewrite Es' in *. rewrite andb_false_r in Hc. exists m. splits; auto.
     + destruct A as (_ & _ & cw & A1 & A2 & A3). destruct A3 as (e0 & -> & A4). cbn in *.
       rewrite andb_true_r in Hc. exists cw. splits; auto. exists e0. auto.
+Qed.
+
+(** * non-vacuity *)
+(* ex_trace (CliProofs): two calls (op 1 holds id "1", op 0 holds id "2"), one array with the reply for "2", an
+   unknown id, a reply for "1" and a duplicate for "1" with another payload: the log records which member found
+   which id pending; the first one delivered while pending is the one returned *)
+Example reply_is_peers_nonvacuous :
+  exists s, traces_to ex_cfg ex_trace s
+    /\ In (ORet 1 (RetCall (RRes [57%N]))) (hist s) /\ In (ORet 0 (RetCall (RRes [55%N]))) (hist s)
+    /\ evlog (init_of ex_cfg) ex_trace
+       = [DMember 0 0 (ex_reply [50%N] [55%N]) (Some 1); DMember 0 1 (ex_reply [57%N; 57%N] [56%N]) None;
+          DMember 0 2 (ex_reply [49%N] [57%N]) (Some 0); DMember 0 3 (ex_reply [49%N] [48%N]) None]
+    /\ filter (hits [49%N]) (evlog (init_of ex_cfg) ex_trace) = [DMember 0 2 (ex_reply [49%N] [57%N]) (Some 0)].
+Proof.
+  destruct (run (init_of ex_cfg) ex_trace) as [[s oss]|] eqn:E.
+  - exists s. split; [exists oss; exact E|]. revert E. vm_compute. intros [= <- _]. splits; auto.
+  - revert E. vm_compute. discriminate.
+Qed.
+
+(* a batch with a notification in the middle, answered in reverse order in one array *)
+Definition ex_nspec : spec := mkSpec [110%N] [] true false.
+Definition ex_trace_batch : list label :=
+  [LOp 0 KBatch [ex_spec 49; ex_nspec; ex_spec 50]; LRelReq 0; LRelReq 0; LRelSend 0;
+   LFeed (FMsg (InMsgs true [ex_reply [50%N] [56%N]; ex_reply [49%N] [55%N]])); LRelDeliver 0; LRelWatch 0; LRelWatch 1].
+
+Example reply_is_peers_batch_nonvacuous :
+  exists s, traces_to ex_cfg ex_trace_batch s
+    /\ In (ORet 0 (RetBatch [([49%N], RRes [55%N]); ([50%N], RRes [56%N])])) (hist s)
+    /\ In (OSendReq true true [([49%N], [109%N], [91%N; 49%N; 93%N]); ([], [110%N], []); ([50%N], [109%N], [91%N; 50%N; 93%N])]) (hist s)
+    /\ evlog (init_of ex_cfg) ex_trace_batch
+       = [DMember 0 0 (ex_reply [50%N] [56%N]) (Some 1); DMember 0 1 (ex_reply [49%N] [55%N]) (Some 0); DWatch 0 None; DWatch 1 None].
+Proof.
+  destruct (run (init_of ex_cfg) ex_trace_batch) as [[s oss]|] eqn:E.
+  - exists s. split; [exists oss; exact E|]. revert E. vm_compute. intros [= <- _]. splits; auto.
+  - revert E. vm_compute. discriminate.
+Qed.
+
+(* the same two calls answered (A) by one array in reverse order, (B) by two single records delivered out of order *)
+Definition ex_two_calls : list label :=
+  [LOp 0 KCall [ex_spec 49]; LOp 1 KCall [ex_spec 50]; LRelReq 0; LRelReq 1; LRelSend 0; LRelSend 1].
+Definition ex_trace_A : list label :=
+  ex_two_calls ++ [LFeed (FMsg (InMsgs true [ex_reply [50%N] [56%N]; ex_reply [49%N] [55%N]])); LRelDeliver 0].
+Definition ex_trace_B : list label :=
+  ex_two_calls ++ [LFeed (FMsg (InMsgs false [ex_reply [49%N] [55%N]])); LFeed (FMsg (InMsgs false [ex_reply [50%N] [56%N]]));
+                   LRelDeliver 1; LRelDeliver 0].
+
+Example order_irrelevant_nonvacuous :
+  exists s1 s2 o1 o2, traces_to ex_cfg ex_trace_A s1 /\ traces_to ex_cfg ex_trace_B s2
+    /\ op_at s1 1 = Some o1 /\ op_at s2 1 = Some o2 /\ o_ctx o1 = None /\ o_ctx o2 = None /\ err s1 = None /\ err s2 = None
+    /\ hd_error (op_ids s1 1) = Some [50%N] /\ hd_error (op_ids s2 1) = Some [50%N]
+    /\ answers s1 [50%N] member_res (RRes [56%N]) /\ answers s2 [50%N] member_res (RRes [56%N])
+    /\ In (ORet 1 (RetCall (RRes [56%N]))) (hist s1) /\ In (ORet 1 (RetCall (RRes [56%N]))) (hist s2)
+    /\ peer_members s1 <> peer_members s2.
+Proof.
+  destruct (run (init_of ex_cfg) ex_trace_A) as [[s1 oss1]|] eqn:E1; [|revert E1; vm_compute; discriminate].
+  destruct (run (init_of ex_cfg) ex_trace_B) as [[s2 oss2]|] eqn:E2; [|revert E2; vm_compute; discriminate].
+  exists s1, s2. revert E1 E2. vm_compute. intros E1 E2. injection E1 as <- <-. injection E2 as <- <-.
+  eexists; eexists. split; [eexists; reflexivity|]. split; [eexists; reflexivity|].
+  split; [reflexivity|]. split; [reflexivity|]. vm_compute.
+  splits; auto; try discriminate; repeat constructor; intros; try discriminate; reflexivity.
+Qed.
+
+(* the two batches of ex_trace_batch's shape, answered in two different groupings *)
+Definition ex_trace_batch2 : list label :=
+  [LOp 0 KBatch [ex_spec 49; ex_nspec; ex_spec 50]; LRelReq 0; LRelReq 0; LRelSend 0;
+   LFeed (FMsg (InMsgs false [ex_reply [49%N] [55%N]])); LFeed (FMsg (InMsgs false [ex_reply [50%N] [56%N]]));
+   LRelDeliver 1; LRelDeliver 0].
+
+Example order_irrelevant_batch_nonvacuous :
+  exists s1 s2 o1 o2, traces_to ex_cfg ex_trace_batch s1 /\ traces_to ex_cfg ex_trace_batch2 s2
+    /\ op_at s1 0 = Some o1 /\ op_at s2 0 = Some o2 /\ o_ctx o1 = None /\ o_ctx o2 = None /\ err s1 = None /\ err s2 = None
+    /\ (exists rs1 rs2, In (ORet 0 (RetBatch rs1)) (hist s1) /\ In (ORet 0 (RetBatch rs2)) (hist s2)
+                        /\ In ([50%N], RRes [56%N]) rs1 /\ In ([50%N], RRes [56%N]) rs2)
+    /\ answers s1 [50%N] member_bres (RRes [56%N]) /\ answers s2 [50%N] member_bres (RRes [56%N]).
+Proof.
+  destruct (run (init_of ex_cfg) ex_trace_batch) as [[s1 oss1]|] eqn:E1; [|revert E1; vm_compute; discriminate].
+  destruct (run (init_of ex_cfg) ex_trace_batch2) as [[s2 oss2]|] eqn:E2; [|revert E2; vm_compute; discriminate].
+  exists s1, s2. revert E1 E2. vm_compute. intros E1 E2. injection E1 as <- <-. injection E2 as <- <-.
+  eexists; eexists. split; [eexists; reflexivity|]. split; [eexists; reflexivity|].
+  split; [reflexivity|]. split; [reflexivity|]. vm_compute.
+  splits; auto; try discriminate.
+  - eexists; eexists. splits; [right; left; reflexivity|right; left; reflexivity|right; left; reflexivity|right; left; reflexivity].
+  - repeat constructor; intros; try discriminate; reflexivity.
+  - repeat constructor; intros; try discriminate; reflexivity.
+Qed.
+
+(* ex_trace5 (CliC05): the deadline of call 0 fires, its watcher wins; OnCancel ran once, the call returns the
+   context's own error *)
+Example watch_outcome_nonvacuous :
+  exists s sl, traces_to ex_cfg ex_trace5 s /\ slot_at s 0 = Some sl /\ c_oncancel s = true /\ watch_written sl = true
+    /\ oc_count (id_text (sl_id sl)) (hist s) = 1
+    /\ In (OOnCancel [49%N] (Some (ctx_werr (Some WDeadline)))) (hist s)
+    /\ In (ORet 0 (RetCall (RCtx WDeadline))) (hist s)
+    /\ evlog (init_of ex_cfg) ex_trace5 = [DWatch 0 (Some (mkVal [49%N] (Some (ctx_werr (Some WDeadline))) [] SWatch))].
+Proof.
+  destruct (run (init_of ex_cfg) ex_trace5) as [[s oss]|] eqn:E; [|revert E; vm_compute; discriminate].
+  exists s. revert E. vm_compute. intros E. injection E as <- <-.
+  eexists. split; [eexists; reflexivity|]. split; [reflexivity|]. vm_compute. splits; auto.
+Qed.
+
+(* and a call answered by the peer: no OnCancel *)
+Example watch_outcome_peer_nonvacuous :
+  exists s sl, traces_to ex_cfg ex_trace s /\ slot_at s 0 = Some sl /\ c_oncancel s = true /\ watch_written sl = false
+    /\ oc_count (id_text (sl_id sl)) (hist s) = 0.
+Proof.
+  destruct (run (init_of ex_cfg) ex_trace) as [[s oss]|] eqn:E; [|revert E; vm_compute; discriminate].
+  exists s. revert E. vm_compute. intros E. injection E as <- <-.
+  eexists. split; [eexists; reflexivity|]. split; [reflexivity|]. vm_compute. splits; auto.
 Qed.
